@@ -19,6 +19,8 @@ def plans(ctx):
             R.Plan("t1b", "S_t1b", emit_mod=90, max_inst=1, max_pw=2, rich_sel="RichModes"),
             R.Plan("q1", "S_q1", emit_mod=160, max_inst=1, max_pw=2),
             # a service whose name is a prefix of another's; an entry with an unknown protocol word (never queried)
+            # only login-type services (no dronecheck / combined); a service whose name is a prefix of another's
+            R.Plan("ipr2", "S_ipr2", emit_mod=150, max_inst=1, max_pw=2),
             R.Plan("pref", "S_pref", emit_mod=250, max_inst=1, max_pw=2)]
     return [R.Plan("d1", "S_t1a", script="ScriptData1", rich_sel="RichData", emit_mod=2, max_pw=1),
             R.Plan("d2", "S_t1b", script="ScriptData2", rich_sel="RichData", emit_mod=6, max_pw=1),
@@ -32,6 +34,7 @@ def plans(ctx):
             R.Plan("t1d", "S_t1d", emit_mod=2, max_inst=2, max_pw=2),
             R.Plan("two", "S_q1", emit_mod=40, ids="Ids2", max_inst=1, max_pw=0, pw_on=False),
             R.Plan("pref", "S_pref", emit_mod=25, max_inst=1, max_pw=2),
+            R.Plan("ipr2", "S_ipr2", emit_mod=12, max_inst=1, max_pw=2),
             R.Plan("unk", "S_unk", emit_mod=30, max_inst=1, max_pw=2),
             R.Plan("drone", "S_drone", emit_mod=2, max_inst=1, max_pw=2),
             R.Plan("sim", "S_t1a", simulate="num=60", depth=45, workers=8, rich=True, ids="Ids2", max_inst=6, max_pw=3,
